@@ -9,6 +9,7 @@ import (
 	"fmt"
 	"path/filepath"
 	"reflect"
+	"regexp/syntax"
 	"sort"
 	"strconv"
 	"strings"
@@ -116,6 +117,28 @@ func (i *interpreter) fromNative(rv reflect.Value) value {
 		}
 		return out
 	}
+	switch t.Kind() {
+	case reflect.Ptr:
+		// read-only library data (e.g. the tree of regexp/syntax): a pointer to a
+		// converted copy of the pointee
+		if rv.IsNil() {
+			return (*value)(nil)
+		}
+		cell := i.fromNative(rv.Elem())
+		return &cell
+	case reflect.Struct:
+		st := make(structure, rv.NumField())
+		for k := range st {
+			st[k] = i.fromNative(rv.Field(k))
+		}
+		return st
+	case reflect.Array:
+		a := make(array, rv.Len())
+		for k := range a {
+			a[k] = i.fromNative(rv.Index(k))
+		}
+		return a
+	}
 	panic(unsupported{"native bridge: result of type " + t.String()})
 }
 
@@ -174,49 +197,52 @@ func regNative(name string, fn interface{}) {
 
 func init() {
 	for name, fn := range map[string]interface{}{
-		"strings.TrimSuffix":             strings.TrimSuffix,
-		"strings.TrimPrefix":             strings.TrimPrefix,
-		"strings.TrimSpace":              strings.TrimSpace,
-		"strings.Trim":                   strings.Trim,
-		"strings.TrimLeft":               strings.TrimLeft,
-		"strings.TrimRight":              strings.TrimRight,
-		"strings.Contains":               strings.Contains,
-		"strings.ContainsAny":            strings.ContainsAny,
-		"strings.ContainsRune":           strings.ContainsRune,
-		"strings.Index":                  strings.Index,
-		"strings.IndexByte":              strings.IndexByte,
-		"strings.IndexRune":              strings.IndexRune,
-		"strings.IndexAny":               strings.IndexAny,
-		"strings.LastIndex":              strings.LastIndex,
-		"strings.LastIndexByte":          strings.LastIndexByte,
-		"strings.Count":                  strings.Count,
-		"strings.Replace":                strings.Replace,
-		"strings.ReplaceAll":             strings.ReplaceAll,
-		"strings.Repeat":                 strings.Repeat,
-		"strings.Fields":                 strings.Fields,
-		"strings.EqualFold":              strings.EqualFold,
-		"strings.Compare":                strings.Compare,
-		"strings.SplitAfter":             strings.SplitAfter,
-		"strings.SplitAfterN":            strings.SplitAfterN,
-		"strings.Cut":                    strings.Cut,
-		"strings.CutPrefix":              strings.CutPrefix,
-		"strings.CutSuffix":              strings.CutSuffix,
-		"strings.Title":                  strings.Title,
-		"strings.HasPrefix":              strings.HasPrefix,
-		"strings.HasSuffix":              strings.HasSuffix,
-		"strings.ToLower":                strings.ToLower,
-		"strings.ToUpper":                strings.ToUpper,
-		"strings.Split":                  strings.Split,
-		"strings.SplitN":                 strings.SplitN,
-		"strings.Join":                   strings.Join,
-		"path/filepath.Ext":              filepath.Ext,
-		"path/filepath.Clean":            filepath.Clean,
-		"path/filepath.Base":             filepath.Base,
-		"path/filepath.Dir":              filepath.Dir,
-		"path/filepath.IsAbs":            filepath.IsAbs,
-		"path/filepath.Join":             filepath.Join,
-		"path/filepath.Split":            filepath.Split,
-		"path/filepath.Match":            filepath.Match,
+		"strings.TrimSuffix":    strings.TrimSuffix,
+		"strings.TrimPrefix":    strings.TrimPrefix,
+		"strings.TrimSpace":     strings.TrimSpace,
+		"strings.Trim":          strings.Trim,
+		"strings.TrimLeft":      strings.TrimLeft,
+		"strings.TrimRight":     strings.TrimRight,
+		"strings.Contains":      strings.Contains,
+		"strings.ContainsAny":   strings.ContainsAny,
+		"strings.ContainsRune":  strings.ContainsRune,
+		"strings.Index":         strings.Index,
+		"strings.IndexByte":     strings.IndexByte,
+		"strings.IndexRune":     strings.IndexRune,
+		"strings.IndexAny":      strings.IndexAny,
+		"strings.LastIndex":     strings.LastIndex,
+		"strings.LastIndexByte": strings.LastIndexByte,
+		"strings.Count":         strings.Count,
+		"strings.Replace":       strings.Replace,
+		"strings.ReplaceAll":    strings.ReplaceAll,
+		"strings.Repeat":        strings.Repeat,
+		"strings.Fields":        strings.Fields,
+		"strings.EqualFold":     strings.EqualFold,
+		"strings.Compare":       strings.Compare,
+		"strings.SplitAfter":    strings.SplitAfter,
+		"strings.SplitAfterN":   strings.SplitAfterN,
+		"strings.Cut":           strings.Cut,
+		"strings.CutPrefix":     strings.CutPrefix,
+		"strings.CutSuffix":     strings.CutSuffix,
+		"strings.Title":         strings.Title,
+		"strings.HasPrefix":     strings.HasPrefix,
+		"strings.HasSuffix":     strings.HasSuffix,
+		"strings.ToLower":       strings.ToLower,
+		"strings.ToUpper":       strings.ToUpper,
+		"strings.Split":         strings.Split,
+		"strings.SplitN":        strings.SplitN,
+		"strings.Join":          strings.Join,
+		"path/filepath.Ext":     filepath.Ext,
+		"path/filepath.Clean":   filepath.Clean,
+		"path/filepath.Base":    filepath.Base,
+		"path/filepath.Dir":     filepath.Dir,
+		"path/filepath.IsAbs":   filepath.IsAbs,
+		"path/filepath.Join":    filepath.Join,
+		"path/filepath.Split":   filepath.Split,
+		"path/filepath.Match":   filepath.Match,
+		"regexp/syntax.Parse": func(s string, flags uint16) (*syntax.Regexp, error) {
+			return syntax.Parse(s, syntax.Flags(flags))
+		},
 		"strconv.Itoa":                   strconv.Itoa,
 		"strconv.Atoi":                   strconv.Atoi,
 		"strconv.FormatInt":              strconv.FormatInt,
